@@ -244,6 +244,8 @@ func c12Exec(kind string, roots, tasks []string, hist []c12Op) *c12Result {
 			err = UpdateDropStateTaskCollectionPosition(f.GetTaskCollectionPositionMetaStore(ctx), op.Task, op.Coll)
 		case "delTask":
 			_, err = DeleteTask(f, op.Task)
+		case "delPos":
+			err = DeleteTaskCollectionPosition(f.GetTaskCollectionPositionMetaStore(ctx), op.Task, op.Coll)
 		case "putMsg":
 			err = f.GetReplicateStore(ctx).Put(ctx, coremeta.GetMetaKey(op.Task, "m1"), coreapi.MetaMsg{Base: coreapi.BaseTaskMsg{TaskID: op.Task, MsgID: "m1", TargetChannels: []string{op.Root}, ReadyChannels: []string{fmt.Sprint(stamp)}}, Type: coreapi.DropCollectionMetaMsgType})
 		case "rmMsg":
@@ -269,7 +271,7 @@ func c12Exec(kind string, roots, tasks []string, hist []c12Op) *c12Result {
 			switch op.Kind {
 			case "putTask", "setState":
 				okOwner = okOwner && o.Kind == "task_info"
-			case "updPos", "markDropped":
+			case "updPos", "markDropped", "delPos":
 				okOwner = okOwner && o.Kind == "task_position" && o.Coll == fmt.Sprint(op.Coll)
 			case "delTask":
 				okOwner = okOwner && (o.Kind == "task_info" || o.Kind == "task_position")
@@ -457,7 +459,7 @@ func c12Families(thorough bool) []c12Family {
 		for _, t := range f.Tasks {
 			f.Ops = append(f.Ops, c12Op{Kind: "putTask", Root: "r", Task: t}, c12Op{Kind: "delTask", Root: "r", Task: t}, c12Op{Kind: "setState", Root: "r", Task: t})
 			for _, c := range []int64{1, 10, -10} {
-				f.Ops = append(f.Ops, c12Op{Kind: "markDropped", Root: "r", Task: t, Coll: c})
+				f.Ops = append(f.Ops, c12Op{Kind: "markDropped", Root: "r", Task: t, Coll: c}, c12Op{Kind: "delPos", Root: "r", Task: t, Coll: c})
 				for _, ch := range []string{"c", "c2"} {
 					f.Ops = append(f.Ops, c12Op{Kind: "updPos", Root: "r", Task: t, Coll: c, Chan: ch})
 				}
